@@ -14,6 +14,7 @@ namespace vh
   {
     static std::string sparse(Tok& t, std::size_t n, std::size_t blocks);
     static std::string jacobian(Tok& t, std::size_t ncell, std::size_t ns);
+    static std::string jacobianmix(Tok& t, std::size_t ncell, std::size_t ns);
     static std::string lu(Tok& t, std::size_t kind, std::size_t n, std::size_t blocks);
     static std::string jacobianflat(Tok& t, std::size_t ncell, std::size_t ns);
     static std::string luflat(Tok& t, std::size_t kind, std::size_t n, std::size_t blocks);
